@@ -43,7 +43,7 @@ func run_writer(args []string){
 	for ;; {
     buf := make([]byte, 4)
     if _, err := gio.ReadFull(input, buf); err != nil {
-				verifEvent("cexit", "trunc", 0)
+				verifEvent("cexit", "trunc", 0, "file", fn)
         return
     }
 
@@ -52,7 +52,7 @@ func run_writer(args []string){
     msg := make([]byte, size)
     if _, err := gio.ReadFull(input, msg); err != nil {
 				fmt.Println(err)
-				verifEvent("cexit", "trunc", 1)
+				verifEvent("cexit", "trunc", 1, "file", fn)
         return
     }
 
